@@ -398,6 +398,92 @@ func c03(w, tw *h.W, tier string, seed int64, only string) {
 			sc.Close()
 		}
 	}
+	// multi-output operations: every output that already exists (with an unusual mode) must be replaced by the complete
+	// new output and keep its permission bits
+	for i := range ops {
+		op := &ops[i]
+		if !selected(op.Name, only) || op.Class != "outdir" {
+			continue
+		}
+		sc0 := catalog.NewScenario(op, "dir")
+		r0 := sc0.Run(fsx.RunCfg{})
+		var outs []string
+		for _, d := range fsx.Diff(r0.Before, r0.After) {
+			if d[0] == '+' && r0.After[d[1:]].Kind == "f" {
+				outs = append(outs, d[1:])
+			}
+		}
+		sc0.Close()
+		if r0.Outcome() != "ok" || len(outs) == 0 {
+			skipped = append(skipped, op.Name+"/dir-existing: "+errStr(&r0))
+			continue
+		}
+		for _, mode := range []os.FileMode{0664, 0666, 0600} {
+			sc := catalog.NewScenario(op, "dir")
+			for _, o := range outs {
+				sc.SB.Put(o, []byte("previous content of "+o), mode)
+			}
+			r := sc.Run(fsx.RunCfg{})
+			tid++
+			cfg := fmt.Sprintf("dir-existing%04o", mode)
+			rec := runRec{T: tid, Op: op.Name, Cfg: cfg, Kind: "none", N: len(r.Events), Outcome: r.Outcome(), Err: errStr(&r), Verdict: "ok"}
+			rec.Diff = fsx.Diff(r.Canon.Snap(r.Before), r.Canon.Snap(r.After))
+			if rec.Diff == nil {
+				rec.Diff = []string{}
+			}
+			fail := func(key, why string) {
+				if rec.Verdict == "ok" {
+					rec.Verdict, rec.Key, rec.Why = "violation", fmt.Sprintf("%s|%s|%s", op.Name, cfg, key), why
+				}
+			}
+			if r.Outcome() != "ok" {
+				if len(rec.Diff) != 0 {
+					fail("failed and changed files", "operation failed and changed: "+strings.Join(rec.Diff, " "))
+				} else {
+					skipped = append(skipped, fmt.Sprintf("%s/%s: %s", op.Name, cfg, errStr(&r)))
+				}
+			} else {
+				for _, o := range outs {
+					a, ok := r.After[o]
+					b := r.Before[o]
+					switch {
+					case !ok:
+						fail("destination missing", o+" vanished")
+					case a.Sha == b.Sha:
+						fail("destination not replaced", o+" still holds its previous content although the operation succeeded")
+					case a.Mode != b.Mode:
+						fail("mode changed", fmt.Sprintf("%s had mode %o, now %o", o, b.Mode, a.Mode))
+					case !sc.OkPDF(o):
+						fail("destination incomplete", o+" does not validate")
+					}
+				}
+				for _, d := range rec.Diff {
+					name := d[1:]
+					if j := strings.Index(name, "("); j >= 0 && d[0] == '~' {
+						name = name[:j]
+					}
+					isOut := false
+					for _, o := range outs {
+						if o == name {
+							isOut = true
+						}
+					}
+					if !isOut {
+						fail("other entry changed", "operation succeeded but also changed "+d)
+					}
+				}
+			}
+			for _, l := range r.Lines(fsx.Meta{T: tid, Name: op.Name + "/" + cfg, Prot: sc.Prot, Outs: outs, DestDirs: sc.DestDirs, Judge: []string{"c03"}, OkPDF: sc.OkPDF}) {
+				tw.Put(l)
+			}
+			w.Put(rec)
+			runs++
+			if rec.Verdict == "violation" {
+				viol++
+			}
+			sc.Close()
+		}
+	}
 	h.Summary(map[string]any{"runs": runs, "violations": viol, "skipped": skipped, "ops": len(ops)})
 }
 
